@@ -3,6 +3,7 @@ package main
 import (
 	"fmt"
 	"go/token"
+	"go/types"
 	"strings"
 
 	"golang.org/x/tools/go/ssa"
@@ -170,4 +171,62 @@ func traceD(v ssa.Value, d int) string {
 		return "(" + traceD(x.X, d+1) + " " + x.Op.String() + " " + traceD(x.Y, d+1) + ")"
 	}
 	return desc(v)
+}
+
+// sliceElemSources: where the elements of a slice value come from — trace strings of single elements stored into a
+// slice literal, and of whole slices appended/concatenated in. append, slices.Concat, slice literals, make (no
+// elements) and phis are looked through; anything else is one opaque source (its trace).
+func sliceElemSources(v ssa.Value, depth int, out map[string]bool) {
+	if depth > 8 || v == nil {
+		return
+	}
+	arrayStores := func(al *ssa.Alloc, each func(ssa.Value)) {
+		for _, r := range *al.Referrers() {
+			if ia, ok := r.(*ssa.IndexAddr); ok {
+				for _, rr := range *ia.Referrers() {
+					if st, ok := rr.(*ssa.Store); ok && st.Addr == ia {
+						each(st.Val)
+					}
+				}
+			}
+		}
+	}
+	switch x := v.(type) {
+	case *ssa.Const:
+		return // nil slice
+	case *ssa.MakeSlice:
+		return
+	case *ssa.Phi:
+		for _, e := range x.Edges {
+			sliceElemSources(e, depth+1, out)
+		}
+	case *ssa.Slice:
+		if al, ok := x.X.(*ssa.Alloc); ok {
+			if _, isArr := al.Type().(*types.Pointer).Elem().Underlying().(*types.Array); isArr {
+				arrayStores(al, func(e ssa.Value) { out["elem:"+trace(e)] = true })
+				return
+			}
+		}
+		sliceElemSources(x.X, depth+1, out)
+	case *ssa.Call:
+		switch calleeName(&x.Call) {
+		case "append":
+			sliceElemSources(x.Call.Args[0], depth+1, out)
+			if len(x.Call.Args) > 1 {
+				sliceElemSources(x.Call.Args[1], depth+1, out)
+			}
+			return
+		}
+		if strings.HasPrefix(calleeName(&x.Call), "slices.Concat") && len(x.Call.Args) == 1 {
+			if sl, ok := x.Call.Args[0].(*ssa.Slice); ok {
+				if al, ok := sl.X.(*ssa.Alloc); ok {
+					arrayStores(al, func(e ssa.Value) { sliceElemSources(e, depth+1, out) })
+					return
+				}
+			}
+		}
+		out["slice:"+trace(v)] = true
+	default:
+		out["slice:"+trace(v)] = true
+	}
 }
